@@ -111,8 +111,12 @@ func buildWorkflow(hooks []Hook) workflow.Role {
 	for _, h := range hooks {
 		switch h.Kind {
 		case "call":
+			cto := h.Timeout
+			if cto == "" {
+				cto = "5s"
+			}
 			roles = append(roles, workflow.NewCallRole(fmt.Sprintf("c%d", h.Id),
-				task.Traits{Trigger: h.Trig, Await: h.Await, Timeout: "5s", Critical: h.Crit},
+				task.Traits{Trigger: h.Trig, Await: declaredAwait(h), Timeout: cto, Critical: h.Crit},
 				fmt.Sprintf("verif.Probe(%d)", h.Id), ""))
 		case "task":
 			to := h.Timeout
@@ -124,6 +128,32 @@ func buildWorkflow(hooks []Hook) workflow.Role {
 		}
 	}
 	return workflow.NewAggregatorRole("root", roles)
+}
+
+func declaredAwait(h Hook) string {
+	if h.Await == "" {
+		return h.Trig
+	}
+	return h.Await
+}
+
+// awaitsOf reads the await expression every call role of the workflow ended up with
+// (role names c<hook id>).
+func awaitsOf(wf workflow.Role) []AwaitObs {
+	out := []AwaitObs{}
+	for _, r := range wf.GetRoles() {
+		name := r.GetName()
+		tr, ok := r.(interface{ GetTaskTraits() task.Traits })
+		if !ok || !strings.HasPrefix(name, "c") {
+			continue
+		}
+		id, err := strconv.Atoi(name[1:])
+		if err != nil {
+			continue
+		}
+		out = append(out, AwaitObs{Hook: id, Await: tr.GetTaskTraits().Await})
+	}
+	return out
 }
 
 func pendingOf(env *environment.Environment, rec *Recorder) []PendObs {
@@ -200,6 +230,7 @@ func (b *bare) run(in Input) (obs Obs) {
 		obs.Note = "cannot build environment: " + err.Error()
 		return
 	}
+	obs.Awaits = awaitsOf(wf)
 	hookById := map[string]int{}
 	for _, h := range in.Hooks {
 		if h.Kind == "task" {
@@ -269,6 +300,9 @@ func (b *bare) run(in Input) (obs Obs) {
 		}
 		for _, h := range op.Slower {
 			rec.SetSlow(h, i, 4*slowDelay)
+		}
+		if op.PauseMs > 0 {
+			time.Sleep(time.Duration(op.PauseMs) * time.Millisecond)
 		}
 		rec.add(Rec{Kind: "O"})
 		var opErr error
